@@ -134,3 +134,8 @@ Definition build_scaled (name node0 : string) (minS maxS normS fixc : Q) (rg : o
 (* inner portfolio without nodal rows at the external nodes, then the wrapper's renaming *)
 Definition build_struct (g : grid) (name : string) (inner_nodes ext : list string) (aps : list (option aprob)) : option aprob :=
   obind (seq_opts aps) (fun l => Some (struct_wrap name ext (portfolio inner_nodes ext (g_I g) l))).
+
+(* ---------- C15 ---------- *)
+Definition c15_case (steps : list nat) (xprev : vec) (P : lp) (mp : list mrow) (P2 : lp) (mp2 : list mrow) : list bool :=
+  let m := fix_window steps xprev {| ap_lp := P; ap_map := mp |} in
+  lp_close (ap_lp m) P2 ++ [map_close (ap_map m) mp2].
